@@ -46,6 +46,10 @@
 
 extern REMOVALPOLICYCREATE createRemovalPolicy_lru;
 
+// store_rebuild.cc of the tree is linked instead of tests/stub_store_rebuild.cc (which "reads" zeros);
+// its only reference missing from the link set (used when a cache digest exists; there is none here):
+void storeDigestNoteStoreReady() {}
+
 namespace {
 
 const int SlotSize = 512;
@@ -227,7 +231,7 @@ std::vector<Dev> deviations(const Image &base, bool withWholeSlotOps)
 // ---------------------------------------------------------------- running one image in a forked process
 struct Verdict {
     volatile int done;
-    volatile int readable, leaked, writeLocked, freeSlots, dirsRebuilding;
+    volatile int readable, leaked, writeLocked, freeSlots, dirsRebuilding, anchorKeyDiffers;
     char key[200];
     char msg[1200];
 };
@@ -283,9 +287,13 @@ void rebuildAndJudge(const Image &im)
     stamp("store init done");
 
     // the rebuild is a chain of timed events and async calls: run them on a clock that jumps
+    double skew = 0;
     for (int i = 0; i < 400; ++i) {
+        // getCurrentTime() (also called inside the rebuild steps) resets current_dtime to the wall
+        // clock, so the jump must grow every round for a "+0.01 s" event to become due
+        skew += 5.0;
         getCurrentTime();
-        current_dtime += 5.0;
+        current_dtime += skew;
         EventScheduler::GetInstance()->checkEvents(0);
         AsyncCallQueue::Instance().fire();
         if (StoreController::store_dirs_rebuilding == 0)
@@ -332,6 +340,10 @@ void rebuildAndJudge(const Image &im)
         uint64_t sum = 0;
         int steps = 0;
         std::string chain;
+        // every chain slot must be, on disk, a slot of the same entry as the chain's first slot
+        Key diskKey = akey;
+        if (a->start >= 0 && a->start < n && !im.slots[a->start].blank) { diskKey.k[0] = im.slots[a->start].h.key[0]; diskKey.k[1] = im.slots[a->start].h.key[1]; }
+        if (!(diskKey == akey)) ++verdict->anchorKeyDiffers;
         for (Ipc::StoreMapSliceId sid = a->start; sid >= 0; ) {
             if (sid >= n) { setVerdict("chain:slot-out-of-range", who + " has slot " + std::to_string(sid) + " in its chain" + chain); break; }
             if (++steps > n) { setVerdict("chain:cyclic", who + " has a cyclic chain" + chain); break; }
@@ -349,7 +361,7 @@ void rebuildAndJudge(const Image &im)
             const bool present = !disk.blank && at + (long)sizeof(Rock::DbCellHeader) <= fileLen;
             if (!present)
                 setVerdict("chain:slot-blank-or-cut-off-on-disk", who + " uses slot " + std::to_string(sid) + ", which is blank or truncated on disk; chain:" + chain);
-            else if (!(Key{{disk.h.key[0], disk.h.key[1]}} == akey))
+            else if (!(Key{{disk.h.key[0], disk.h.key[1]}} == diskKey))
                 setVerdict("chain:slot-of-another-key", who + " uses slot " + std::to_string(sid) + ", whose on-disk header carries key " + std::to_string(disk.h.key[0]) + "; chain:" + chain);
             else if (disk.h.payloadSize != sz)
                 setVerdict("chain:slice-size-differs-from-disk", who + " slot " + std::to_string(sid) + " slice size " + std::to_string(sz) + " != on-disk payloadSize " + std::to_string(disk.h.payloadSize));
@@ -366,13 +378,24 @@ void rebuildAndJudge(const Image &im)
         if (owner[s] < 0 && !isFree[s]) ++verdict->leaked;
 }
 
-struct RunStats { uint64_t images = 0, died = 0, withReadable = 0, withLeak = 0, withWriteLocked = 0; } rs;
+struct RunStats { uint64_t images = 0, died = 0, withReadable = 0, withLeak = 0, withWriteLocked = 0, refused = 0, keyDiffers = 0; } rs;
 
 std::map<std::string, int> reported;
 void failCapped(const std::string &key, const std::string &msg)
 {
     if (++reported[key] <= 4) V::failKey(key, msg);
     else V::count("failures_not_listed_again:" + key);
+}
+
+bool fileContains(const std::string &path, const char *needle)
+{
+    FILE *f = fopen(path.c_str(), "r");
+    if (!f) return false;
+    char line[2048];
+    bool hit = false;
+    while (!hit && fgets(line, sizeof line, f)) hit = strstr(line, needle) != nullptr;
+    fclose(f);
+    return hit;
 }
 
 std::string firstInterestingLine(const std::string &errFile)
@@ -438,6 +461,13 @@ void runImage(const Image &im, const std::string &what)
         if (WIFSIGNALED(st)) how = WTERMSIG(st) == SIGALRM ? "hang (killed after 30 s)" : "signal " + std::to_string(WTERMSIG(st));
         else how = "exit status " + std::to_string(WEXITSTATUS(st));
         std::string why = firstInterestingLine(errFile);
+        if (fileContains(errFile, "cannot read db header") || fileContains(errFile, "cannot open db")) {
+            // Rock::Rebuild::failure(): the db file has no complete 16 KB db header; Squid refuses to start
+            // with such a cache_dir by design (same as a missing file) -- counted, not judged
+            ++rs.refused;
+            V::outcome("refused:db-header-unreadable");
+            return;
+        }
         const std::string key = WIFSIGNALED(st) && WTERMSIG(st) == SIGALRM ? std::string("rebuild-hangs") : "rebuild-dies: " + (why.empty() ? how : why);
         failCapped(key, "the rebuilding process died (" + how + ") on image " + what);
         V::outcome("died");
@@ -451,6 +481,7 @@ void runImage(const Image &im, const std::string &what)
     if (verdict->readable) ++rs.withReadable;
     if (verdict->leaked) ++rs.withLeak;
     if (verdict->writeLocked) ++rs.withWriteLocked;
+    if (verdict->anchorKeyDiffers) ++rs.keyDiffers;
     V::outcome("rebuilt:" + std::to_string(verdict->readable) + "-readable" + (verdict->leaked ? "+leaked-slots" : "") + (verdict->writeLocked ? "+write-locked-anchor" : ""));
 }
 
@@ -527,6 +558,9 @@ void body(V::Ctx &ctx)
     workDir = full;
     verdict = (Verdict *)mmap(nullptr, sizeof(Verdict), PROT_READ | PROT_WRITE, MAP_SHARED | MAP_ANONYMOUS, -1, 0);
     startup();
+    if (getenv("C57_DEBUG")) {
+        if (FILE *f = fopen("/proc/self/status", "r")) { char b[256]; while (fgets(b, sizeof b, f)) if (!strncmp(b, "VmRSS", 5) || !strncmp(b, "VmPTE", 5) || !strncmp(b, "VmSize", 6)) fputs(b, stderr); fclose(f); }
+    }
 
     struct Plan { int n; bool pairs; };
     std::vector<Plan> plans;
@@ -578,6 +612,8 @@ void body(V::Ctx &ctx)
     V::count("images_with_readable_entries", rs.withReadable);
     V::count("images_leaving_leaked_slots(observation)", rs.withLeak);
     V::count("images_leaving_write_locked_anchor(observation)", rs.withWriteLocked);
+    V::count("images_refused_for_unreadable_db_header(observation)", rs.refused);
+    V::count("images_with_anchor_key_from_metadata_differing_from_cell_key(observation)", rs.keyDiffers);
     // clean up: the db file, stderr capture, directory, and any shared segments named after it
     unlink((workDir + "/rock").c_str());
     unlink((workDir + "/stderr.txt").c_str());
